@@ -45,7 +45,7 @@ class C06(BaseCheck):
   REQUIRED_CLASSES = ('phase:in-band', 'phase:pinned-max', 'phase:pinned-min', 'phase:pinned-members',
                       'expansion', 'contraction', 'jitter-round', 'member-down', 'leave-active',
                       'leave-during-jitter-round', 'close-raises-in-jitter-round',
-                      'second-balancer-connecting', 'wall-clock-steps-back', 'yielding-log-handler', 'leave-at-jitter-start', 'phase:trickle', 'requests-outlive-mark-down', 'duplicates-in-initial-list', 'closed-unmarked-member-leaves')
+                      'second-balancer-connecting', 'wall-clock-steps-back', 'yielding-log-handler', 'leave-at-jitter-start', 'phase:trickle', 'requests-outlive-mark-down', 'duplicates-in-initial-list', 'closed-unmarked-member-leaves', 'load-exactly-at-max-load')
   ASSUMPTIONS = ('smoothed load = harness reference EMA with the balancer\'s documented 5 s window and the '
                  'same sampling points, on the documented clock (wall time while it moves forward; standing still while a stepped-back wall clock is behind an earlier reading) (cross-checked against the published load_average gauge); phases whose '
                  'per-member load is within 1e-6 of a band edge for a relevant size are skipped and counted',
@@ -213,7 +213,10 @@ class C06(BaseCheck):
                                  'amount': amount, 'size_after': lb._size,
                                  'channels': [(repr(c_), c_.opens_in_flight, c_.close_steps) for c_ in w.channels],
                                  'heap': [repr(n_.channel) for n_ in lb._heap[1:]]}))
-      if size0 > 0 and idle0 and size0 < mx and lb._ema.value / size0 >= hi_load * (1 + 1e-9):
+      # (at or above: the edge itself is judged when the smoothed value is a whole number - calls minutes apart -
+      # and the quotient is exact; otherwise a hair above, to stay clear of rounding)
+      exact_edge = lb._ema.value == int(lb._ema.value) and lb._ema.value / size0 == hi_load if size0 > 0 else False
+      if size0 > 0 and idle0 and size0 < mx and (lb._ema.value / size0 >= hi_load * (1 + 1e-9) or exact_edge):
         stats['growth_events'] = stats.get('growth_events', 0) + 1
         if lb._size <= size0:
           growth_misses.append((size0, idle0, lb._ema.value, len(lb._pending_endpoints)))
@@ -609,6 +612,25 @@ class C06(BaseCheck):
         if grew:
           viol('trickle-growth', 'one 50 ms request every 12-61 s (never more than one outstanding, max_load=%.1f): the active '
                'set grew %r (size before, after, the balancer\'s smoothed load)' % (hi_load, grew[:3]), {})
+    if idx % 3 == 0 and not jitter and open_mode != 'flaky' and len(out.violations) < 6 and ss.truth and hi_load == int(hi_load):
+      # long-lived calls started minutes apart: the smoothed load equals the number outstanding exactly, so the
+      # load per active member sits exactly on max_load when the last of them arrives (at or above means: grow)
+      classes.add('load-exactly-at-max-load')
+      for r_ in list(live):
+        live.remove(r_)
+        op(lambda r_=r_: w.complete(r_, 'reply'))
+      for c_ in w.channels:
+        if c_.down and not c_.close_steps:
+          c_.set_up()
+      op(lambda: env.advance(300.0))
+      for _k in range(40):
+        if not sizes()[1] or sizes()[0] >= mx or len(out.violations) >= 6:
+          break
+        op(lambda: env.advance(200.0))
+        op(issue)
+      for r_ in list(live):
+        live.remove(r_)
+        op(lambda r_=r_: w.complete(r_, 'reply'))
     out.obligations += 1
     if growth_misses:
       g0 = growth_misses[0]
